@@ -33,6 +33,33 @@ use swc_ecma_ast::{
 };
 type Res<T> = Result<T, Box<DiagnosticInformation>>;
 
+/// Does a materialised semantic type still contain a negation (StNot)? Such a type has no runtime validator.
+fn contains_negation(rt: &Runtype) -> bool {
+    match &rt.kind {
+        RuntypeKind::StNot(_) => true,
+        RuntypeKind::AnyOf(vs) | RuntypeKind::AllOf(vs) => vs.iter().any(contains_negation),
+        RuntypeKind::Array(it) | RuntypeKind::Set(it) => contains_negation(it),
+        RuntypeKind::Map(k, v) => contains_negation(k) || contains_negation(v),
+        RuntypeKind::Tuple {
+            prefix_items,
+            items,
+        } => {
+            prefix_items.iter().any(contains_negation)
+                || items.as_ref().is_some_and(|it| contains_negation(it))
+        }
+        RuntypeKind::Object {
+            vs,
+            indexed_properties,
+        } => {
+            vs.values().any(|it| contains_negation(it.inner()))
+                || indexed_properties.as_ref().is_some_and(|it| {
+                    contains_negation(&it.key) || contains_negation(it.value.inner())
+                })
+        }
+        _ => false,
+    }
+}
+
 fn clean_jsdoc_comment(text: &str) -> Option<String> {
     let text = text.trim_start();
     let text = text.strip_prefix('*').unwrap_or(text);
@@ -1743,6 +1770,15 @@ impl<'a, R: FileManager> FrontendCtx<'a, R> {
                                     DiagnosticInfoMessage::AnyhowError(e.to_string()),
                                 )
                             })?;
+                        if contains_negation(&res) {
+                            // e.g. Exclude<string, "a">: there is no validator for "every string but ..."
+                            return self.error(
+                                anchor,
+                                DiagnosticInfoMessage::AnyhowError(
+                                    "Exclude produces a type that can only be expressed with a negation, which is not supported".to_string(),
+                                ),
+                            );
+                        }
                         Ok(res)
                     }
                     _ => self.error(
